@@ -252,9 +252,10 @@ with exec_range (fuel : nat) (E : env) (x : ident) (cur stp step : Z) (b : block
     let '(o, E1, g) := in_scope (length E) (exec_block f ((x, VI cur) :: E) b) in
     match g with
     | Go | Cont =>
+        (* Python's range over unbounded ints: a next value outside i64 is past the end *)
         if in_i64b (cur + step)
         then let '(o2, E2, g2) := exec_range f E1 x (cur + step) stp step b in (o ++ o2, E2, g2)
-        else (o, E1, Halt Unspec)
+        else (o, E1, Go)
     | Brk => (o, E1, Go)
     | Halt k => (o, E1, Halt k)
     end
